@@ -408,7 +408,7 @@ def _facts(fa, nid):
 
 
 CLAIM = {
-    "text": "Exhaustive crash-point enumeration on a model extracted from the source at every run: the statements of safe_file_dump and FlowModel.save_weights are interpreted on an abstract directory (absent / partial / complete per file), killed before every file operation and inside every non-atomic write, from every initial directory state (none, one checkpoint, checkpoint+.old, stale .temp leftovers) and both save_existing values; the resume logic (check_resume candidates, the nested try/except of _resume_from_file with its exception classes, BaseNestedSampler.resume, FlowProposal.resume's weights re-attachment incl. its own file operations) is interpreted on each resulting directory and must load a complete previous-or-new version, or start afresh only when nothing had completed. Weight saves are followed to depth 2 (kill, resume, train again, kill again). INS: only the first n pickled-count level files are ever loaded. Found and repaired on this tree: resume failed / silently dropped the weights after a kill inside save_weights. The checkpoint target is never set, on the resume path, from the name of the file a sampler was resumed from - which may be the `.old` backup the reader fell back to (C11.5). The file handed to torch.load / load_weights / reload_weights is never None (C11.6: guards, callers' arguments, defaulting idiom, attributes that start as None) - torch.load(None) raises AttributeError, which bypasses the restore-the-backup handler of FlowProposal.resume. The weights path written into the proposal's pickle is the flow's current one, a stored path at most as a fallback (C11.7).",
+    "text": "Exhaustive crash-point enumeration on a model extracted from the source at every run: the statements of safe_file_dump and FlowModel.save_weights are interpreted on an abstract directory (absent / partial / complete per file), killed before every file operation and inside every non-atomic write, from every initial directory state (none, one checkpoint, checkpoint+.old, stale .temp leftovers) and both save_existing values; the resume logic (check_resume candidates, the nested try/except of _resume_from_file with its exception classes, BaseNestedSampler.resume, FlowProposal.resume's weights re-attachment incl. its own file operations) is interpreted on each resulting directory and must load a complete previous-or-new version, or start afresh only when nothing had completed. Weight saves are followed to depth 2 (kill, resume, train again, kill again). INS: only the first n pickled-count level files are ever loaded. Found and repaired on this tree: resume failed / silently dropped the weights after a kill inside save_weights. The checkpoint target is never set, on the resume path, from the name of the file a sampler was resumed from - which may be the `.old` backup the reader fell back to (C11.5). The file handed to torch.load / load_weights / reload_weights is never None (C11.6: guards, callers' arguments, defaulting idiom, attributes that start as None) - torch.load(None) raises AttributeError, which bypasses the restore-the-backup handler of FlowProposal.resume. The weights path written into the proposal's pickle is the flow's current one, a stored path at most as a fallback (C11.7). A torn sampler pickle raises what pickle.load raises on a truncated stream (EOFError / UnpicklingError); torch.load's wider set applies to weight files only.",
     "note": "Trusted: rename within a directory is atomic, a completed close is durable (process death, not power loss); the table of what loading an absent / torn / complete file raises (confirmed once against the pinned torch and pickle). Not decided: that sampling continues numerically from the loaded state; user checkpoint callbacks.",
 }
 
